@@ -492,24 +492,51 @@ func c05pop(c *Ctx, pf map[*ssa.Function]int) {
 		"held-back expunge responders are appended to the remainder stored in State.res", "held-back expunge responders are not kept in State.res (removal would never be announced)")
 	// the skipped targetedExists must also go to the remainder
 	keepTex := false
+	// on the "its expunge was held back" edge (skip set contains the id) of a *targetedExists, every way
+	// through the iteration appends the responder to the remainder
+	remApps := map[ssa.Instruction]bool{}
+	for _, b := range pop.Blocks {
+		for _, in := range b.Instrs {
+			if call, ok := in.(*ssa.Call); ok {
+				if _, isApp := engine.IsBuiltinCall(call, "append"); isApp && remChain[call] {
+					remApps[in] = true
+				}
+			}
+		}
+	}
+	resFldK := c.fieldOf("internal/state", "State", "res")
+	var headers []*ssa.BasicBlock
+	for _, h := range engine.RangeLoopsOver(pop, func(sv ssa.Value) bool {
+		ld, ok := sv.(*ssa.UnOp)
+		return ok && fieldAddrIs(ld.X, resFldK)
+	}) {
+		headers = append(headers, h)
+	}
 	for _, t := range texT {
 		for _, cb := range containsIfs {
+			if !engine.EdgeDominates(t.ifb, 0, cb) {
+				continue
+			}
 			iff := engine.IfOf(cb)
 			_, neg := engine.StripNot(iff.Cond)
 			trueIx := 0
 			if neg {
 				trueIx = 1
 			}
-			for _, b := range pop.Blocks {
-				if engine.EdgeDominates(t.ifb, 0, b) && engine.EdgeDominates(cb, trueIx, b) {
-					for _, in := range b.Instrs {
-						if call, ok := in.(*ssa.Call); ok {
-							if _, isApp := engine.IsBuiltinCall(call, "append"); isApp && remChain[call] {
-								keepTex = true
-							}
-						}
-					}
+			start := cb.Succs[trueIx]
+			ok := len(remApps) > 0 && len(headers) > 0
+			for _, h := range headers {
+				if len(h.Instrs) > 0 && engine.ReachesAvoidingFrom(start, 0, h.Instrs[0], remApps, nil) {
+					ok = false
 				}
+			}
+			for _, ret := range engine.Returns(pop) {
+				if engine.ReachesAvoidingFrom(start, 0, ret, remApps, nil) {
+					ok = false
+				}
+			}
+			if ok {
+				keepTex = true
 			}
 		}
 	}
